@@ -230,6 +230,8 @@ class Gen:
     # ---- expressions
     def expr(self, t, depth=0):
         rng = self.rng
+        if t == UINT and self.profile == "constant":
+            t = INT   # an all-literal integer expression is untyped: there is no uint in the constant profile
         if depth >= self.max_depth:
             return self.atom(t, depth)
         prods = self.productions(t)
@@ -245,7 +247,7 @@ class Gen:
                     e = self.lit(DOUBLE)
             except Undefined:
                 e = self.lit(DOUBLE)
-        if e.const and t in (INT, UINT) and self.profile == "dynamic":
+        if e.const and t in (INT, UINT):
             # constant sub-expressions are folded at translation time: one whose value is undefined (overflow, negative
             # shift count, division by zero) is rejected there, which tells nothing about run-time behaviour
             try:
@@ -325,6 +327,8 @@ class Gen:
     def p_cmp(self, t, depth):
         rng = self.rng
         ot = rng.choice((INT, INT, UINT, DOUBLE, STR, STR, MODE, BOOL))
+        if ot == UINT and self.profile == "constant":
+            ot = INT
         op = rng.choice(("==", "!=", "<", "<=", ">", ">=", "===", "!=="))
         if ot in (MODE, BOOL) and op not in ("==", "!=", "===", "!=="):
             op = rng.choice(("==", "!="))
@@ -399,7 +403,7 @@ class Gen:
             n = rng.choice((0, 1, 2, 3, 4, 8, 16, 30, 31))
             b = N("lit", INT, v=(n, str(n)), const=True)
         else:
-            b = self.expr(rng.choice((INT, UINT)), depth + 1)
+            b = self.expr(rng.choice((INT, UINT)) if self.profile != "constant" else INT, depth + 1)
         self.feat("shift:%s:%s" % (op, t))
         return N("bin", t, (a, b), v=op, const=a.const and b.const)
 
@@ -427,6 +431,8 @@ class Gen:
     def p_cast(self, t, depth):
         rng = self.rng
         srcs = {INT: [DOUBLE, UINT, BOOL, MODE], UINT: [INT, DOUBLE, BOOL], DOUBLE: [INT, UINT]}[t]
+        if self.profile == "constant":
+            srcs = [x for x in srcs if x != UINT]
         st = rng.choice(srcs)
         e = self.expr(st, depth + 1)
         if e.k in ("lit", "un") and e.const and st in (INT, UINT):
@@ -619,6 +625,8 @@ class Gen:
             r = rng.random()
             if r < 0.55:
                 lt = rng.choice((INT, INT, BOOL, STR, DOUBLE, UINT, MODE, PTR, SLIST))
+                if lt == UINT and self.profile == "constant":
+                    lt = INT
                 name = self.fresh()
                 shadow = False
                 if rng.random() < 0.15:
@@ -746,6 +754,8 @@ class Gen:
     def switch_tail(self, t, depth):
         rng = self.rng
         st = rng.choice((INT, INT, STR, MODE, UINT))
+        if st == UINT and self.profile == "constant":
+            st = INT
         subject = self.expr(st, 2)
         ncase = rng.randint(1, 4)
         labels = []
@@ -1025,8 +1035,8 @@ def uint_kind(e):
             a = uint_kind(e.a[0])
             return "int" if a == "untyped" else a
         a, b = uint_kind(e.a[0]), uint_kind(e.a[1])
-        if "int" in (a, b):
-            return "int"
+        if "int" in (a, b) or (a == "untyped" and b == "untyped"):
+            return "int"    # Math.max(1, 2) is not folded: two untyped literals get the default type
         return "concrete"   # at least one side is not constant, hence concrete
     return "concrete"
 
